@@ -27,6 +27,7 @@ LEVEL = 'fault_enumeration'
 def _one(arg):
     sc, index, variant, label = arg
     viol = []
+    probe_key = None
     try:
         w, res, fired, info = run_fault(sc, index, variant)
     except ExecTimeout as exc:
@@ -67,11 +68,41 @@ def _one(arg):
                 w.h.clean_storage()
             except Exception:  # pylint: disable=broad-except
                 pass
+        # 1c. the handle stays in use: a later, unrelated operation that commits (a direct-to-pack write) must not publish anything
+        #     the failed operation left pending in the handle's session
+        if res.exc is not None and sc.op[0] not in ('repack', 'repack_pack'):
+            probe = b'post-fault-probe-object'
+            from ..common import H
+            pk = H(probe, w.config['hash_type'])
+            probe_key = pk
+            w.model.content[pk] = probe
+            info['model_before'].content[pk] = probe
+            info['content'][pk] = probe
+            info['keys'].append(pk)
+            info['maybe'] = set(info['maybe']) | {pk}
+            try:
+                w.h.add_objects_to_pack([probe])
+            except Exception:  # pylint: disable=broad-except
+                pass
         for hh in w.handles:
             hh.close()
         # 2. raw state + fresh handle: the C05 oracle
         for clause, detail in check_image(w.root, info):
             viol.append((clause, detail))
+        # (the probe object of step 1c has served its purpose: take it out again so that the rerun is judged against the plain model)
+        if probe_key is not None:
+            try:
+                c3 = Container(w.root)
+                try:
+                    c3.delete_objects([probe_key])
+                finally:
+                    c3.close()
+            except Exception:  # pylint: disable=broad-except
+                pass
+            for d_ in (info['content'], w.model.content, info['model_before'].content):
+                d_.pop(probe_key, None)
+            if probe_key in info['keys']:
+                info['keys'].remove(probe_key)
         # 3. rerun to the normal result with a new handle
         raw = RawState(w.root)
         refs_repack = any(r.pack_id == -1 for r in raw.rows) or '-1' in raw.packs
@@ -118,7 +149,7 @@ def _one(arg):
                     viol.append(('rerun-failed', f'rerun after the fault cleared: {r2.clause}: {r2.detail}'))
                 else:
                     raw2 = RawState(w.root)
-                    got = {k for k in content if raw2.object_bytes(k) == content[k]}
+                    got = {k for k in content if raw2.object_bytes(k) == content[k]} - {probe_key}
                     if got != expect.present() and not info['damaged']:
                         viol.append(('rerun-state', f'after rerun the container holds {sorted(x[:6] for x in got)} expected '
                                                     f'{sorted(x[:6] for x in expect.present())}'))
